@@ -67,6 +67,7 @@ type thread struct {
 	nspawn  int
 	nops    int
 	sidHash uint64
+	lastRun int
 	hist    uint64 // hash of every (operation, result) this thread completed: its local state
 	id      int
 	label   string
@@ -126,13 +127,14 @@ type sched struct {
 	horizonHit bool
 	sleepBudget map[string]int
 	races    []string
-	accesses map[string]*accessRec
+	accesses map[accessKey]*accessRec
 	mapOrder bool
 	alive    sync.WaitGroup
 	muIDs    map[*Mutex]int
 	final    bool
 	obsHash  uint64
 	tracing  bool
+	defBudget int
 }
 
 type Obs struct {
@@ -150,6 +152,7 @@ type Options struct {
 	MaxPoints   int            // horizon: abort the execution after this many scheduling points
 	SleepBudget map[string]int // per sleep label: how many times a Sleep with that label is a real branching point
 	Races       bool           // enable the happens-before race detector on R/W annotations
+	DefaultSleepBudget int     // budget of sleep labels not listed in SleepBudget
 	Trace       bool           // render option lists and the schedule as text (reports / replays)
 }
 
@@ -175,11 +178,12 @@ func Run(scenario func(), choices []int, opt Options) *Execution {
 		opt.MaxPoints = 5000
 	}
 	s = &sched{wake: make(chan struct{}), chans: map[uintptr]*vchan{}, prefix: choices, maxPoints: opt.MaxPoints,
-		sleepBudget: map[string]int{}, accesses: map[string]*accessRec{}, muIDs: map[*Mutex]int{}}
+		sleepBudget: map[string]int{}, accesses: map[accessKey]*accessRec{}, muIDs: map[*Mutex]int{}}
 	for k, v := range opt.SleepBudget {
 		s.sleepBudget[k] = v
 	}
 	raceOn = opt.Races
+	s.defBudget = opt.DefaultSleepBudget
 	s.tracing = opt.Trace
 	main := s.newThread("main", scenario)
 	_ = main
@@ -251,6 +255,13 @@ func (sc *sched) abortAll() {
 		}
 	}
 	sc.alive.Wait() // every thread goroutine has fully unwound before the next execution starts
+}
+
+func (sc *sched) budget(label string) int {
+	if v, ok := sc.sleepBudget[label]; ok {
+		return v
+	}
+	return sc.defBudget
 }
 
 // ---------------------------------------------------------------- enabledness
@@ -483,10 +494,12 @@ func (sc *sched) loop() {
 				opts = append(opts, o...)
 			}
 		}
+		// fairness among sleepers (polling loops): least recently run first
+		sort.SliceStable(later, func(i, j int) bool { return later[i].t.lastRun < later[j].t.lastRun })
 		// sleeps beyond their branching budget are only taken when nothing else is enabled
 		if len(opts) > 0 {
 			for _, l := range later {
-				if sc.sleepBudget[l.t.pending.label] > 0 {
+				if sc.budget(l.t.pending.label) > 0 {
 					opts = append(opts, l)
 				}
 			}
@@ -498,6 +511,17 @@ func (sc *sched) loop() {
 		}
 		if sc.final {
 			opts = opts[:1] // tear-down phase: interleavings are irrelevant, no branching
+		}
+		// a freshly created thread is started at once, without branching: starting has no effect on any other
+		// thread (it runs thread-local code up to its first operation; unsynchronised shared accesses in that
+		// stretch are judged by the happens-before race detector, not by interleaving). Harness threads whose
+		// start time matters begin with Pause().
+		for _, o := range opts {
+			if o.t.pending.kind == opStart && !o.t.pending.done {
+				opts = []option{o}
+				runningEnabled = false // not a choice, hence never a preemption
+				break
+			}
 		}
 		if len(sc.points) >= sc.maxPoints {
 			sc.horizonHit = true
@@ -529,6 +553,7 @@ func (sc *sched) loop() {
 		}
 		sc.apply(ch)
 		sc.cur = ch.t
+		ch.t.lastRun = len(sc.points)
 		ch.t.resume <- struct{}{}
 	}
 }
@@ -545,8 +570,8 @@ func (sc *sched) apply(o option) {
 		p.chosen = o.variant
 	case opSleep:
 		sc.clock += p.dur
-		if sc.sleepBudget[p.label] > 0 {
-			sc.sleepBudget[p.label]--
+		if b := sc.budget(p.label); b > 0 {
+			sc.sleepBudget[p.label] = b - 1
 		}
 	case opClose:
 		sc.doClose(t, p, p.ch)
@@ -762,6 +787,14 @@ func Final() {
 	if s != nil {
 		s.final = true
 	}
+}
+
+// Pause is a scheduling point without effect (always enabled): the calling thread may be delayed here arbitrarily.
+func Pause() {
+	if s == nil || s.aborting {
+		return
+	}
+	block(&op{kind: opYield, nChoice: 1, label: "pause"})
 }
 
 // Choose is an explicit scheduler choice among n alternatives (used for map iteration order).
@@ -1126,9 +1159,7 @@ func (sc *sched) stateKey() uint64 {
 		k = mix(k, 99)
 	}
 	for l, n := range sc.sleepBudget {
-		if n > 0 {
-			k += mix(hashStr(l), uint64(n)) // commutative
-		}
+		k += mix(hashStr(l), uint64(n)+1) // commutative
 	}
 	return k
 }
